@@ -16,15 +16,33 @@ import (
 	"time"
 
 	"github.com/bool64/cache"
+	zs "github.com/bool64/cache/zzverifsim"
 )
 
 func init() {
 	gens["C14"] = genC14
 }
 
-func genC14(r *rand.Rand, run int, _ string) *Scenario {
+func genC14(r *rand.Rand, run int, tier string) *Scenario {
 	if run%50 == 49 {
 		return genHashScenario(r)
+	}
+
+	if run%7 == 6 {
+		// several importers pull from the same Export handler at the same time
+		sc := genC14(r, 0, tier)
+		sc.TR.HTTPFault, sc.TR.FaultCache = "", ""
+		sc.TR.Importers = 2 + r.IntN(2)
+		sc.NoFastPath = chance(r, 0.5)
+		sc.Sched = genSched(r, 400)
+
+		for i := range sc.TR.Exporter {
+			if len(sc.TR.Exporter[i].Entries) > 12 {
+				sc.TR.Exporter[i].Entries = sc.TR.Exporter[i].Entries[:12]
+			}
+		}
+
+		return sc
 	}
 
 	sc := &Scenario{Engine: "tr", TickNs: 100, MapSeed: r.Uint64(), JitterSeed: r.Uint64(), Sched: SchedSpec{Kind: "random", Seed: r.Uint64()}}
@@ -150,9 +168,124 @@ func (t *simTransport) RoundTrip(req *http.Request) (*http.Response, error) {
 	return resp, nil
 }
 
+// yieldingRW is the http.ResponseWriter handed to the Export handler in concurrent runs: every
+// Write is a yield point, so two requests served by one handler can interleave between the
+// gob messages of a dump.
+type yieldingRW struct {
+	rec *httptest.ResponseRecorder
+}
+
+func (w yieldingRW) Header() http.Header { return w.rec.Header() }
+func (w yieldingRW) WriteHeader(c int)   { w.rec.WriteHeader(c) }
+func (w yieldingRW) Write(p []byte) (int, error) {
+	zs.Yield("rw.Write")
+
+	return w.rec.Write(p)
+}
+
+// runHTTPConcurrent: N importers with the same cache names import from one Export handler at
+// the same time; each must end up with exactly the exporter's entries.
+func runHTTPConcurrent(e *env) {
+	tr := e.sc.TR
+	out := e.out
+	e.setup = false
+
+	exp := &cache.HTTPTransfer{}
+	expBefore := map[string]map[string]trEnt{}
+
+	for _, c := range tr.Exporter {
+		st := newTRStore(e, c.Backend, true)
+		st.fill(c.Entries)
+		exp.AddCache(c.Name, st.wdr)
+		expBefore[c.Name] = st.entries()
+	}
+
+	handler := exp.Export()
+
+	type importer struct {
+		tr     *cache.HTTPTransfer
+		stores map[string]*trStore
+	}
+
+	var imps []*importer
+
+	for n := 0; n < tr.Importers; n++ {
+		im := &importer{tr: &cache.HTTPTransfer{}, stores: map[string]*trStore{}}
+
+		for _, c := range tr.Importer {
+			st := newTRStore(e, c.Backend, true)
+			im.tr.AddCache(c.Name, st.wdr)
+			im.stores[c.Name] = st
+		}
+
+		im.tr.Transport = roundTripFunc(func(req *http.Request) (*http.Response, error) {
+			zs.Yield("http.request")
+
+			rec := httptest.NewRecorder()
+			handler.ServeHTTP(yieldingRW{rec: rec}, req)
+
+			return rec.Result(), nil
+		})
+		imps = append(imps, im)
+	}
+
+	for n, im := range imps {
+		im := im
+
+		e.s.Spawn(fmt.Sprintf("imp%d", n), func() {
+			defer func() {
+				if p := recover(); p != nil {
+					if zs.IsKilled(p) {
+						panic(p)
+					}
+
+					out.violate("C14.PANIC", fmt.Sprint(p), "Import panicked: %v", p)
+				}
+			}()
+
+			if err := im.tr.Import(context.Background(), "http://exporter.test/transfer"); err != nil {
+				out.violate("C14.R4", "import-error", "Import returned %v", err)
+			}
+		})
+	}
+
+	if !e.runAll("C14.STUCK") {
+		return
+	}
+
+	e.checkPanics()
+
+	for n, im := range imps {
+		for _, c := range tr.Importer {
+			want, known := expBefore[c.Name]
+			if !known {
+				want = map[string]trEnt{}
+			}
+
+			if d := sameEntries(want, im.stores[c.Name].entries()); d != "" {
+				out.violate("C14.R1", fmt.Sprintf("%s<-%s concurrent-import-differs", c.Backend, backendOf(tr.Exporter, c.Name)), "importer %d of %d importing concurrently from one Export handler, cache %q (%d exporter entries): %s", n, len(imps), c.Name, len(want), d)
+			}
+		}
+	}
+
+	out.probe("concurrent_imports_from_one_handler")
+	out.NonTrivial = len(tr.Importer) > 0
+	out.Outcome = fmt.Sprintf("conc-import imps=%d caches=%d", len(imps), len(tr.Importer))
+}
+
+type roundTripFunc func(req *http.Request) (*http.Response, error)
+
+func (f roundTripFunc) RoundTrip(req *http.Request) (*http.Response, error) { return f(req) }
+
 func runHTTP(e *env) {
 	tr := e.sc.TR
 	out := e.out
+
+	if tr.Importers > 1 {
+		runHTTPConcurrent(e)
+
+		return
+	}
 
 	exp := &cache.HTTPTransfer{}
 	imp := &cache.HTTPTransfer{}
